@@ -1,6 +1,7 @@
 import flowpaths.stdag as stdag
 import networkx as nx
-from collections import deque 
+from collections import deque
+from fractions import Fraction
 import flowpaths.utils as utils
 
 def compute_inexact_flow_decomp_safe_paths(
@@ -98,6 +99,15 @@ def compute_inexact_flow_decomp_safe_paths(
     # The algorithm follows a two pointer approach computing inexact excess flow
     # See https://doi.org/10.1007/978-3-031-04749-7_11 and https://doi.org/10.4230/LIPIcs.SEA.2024.14
 
+    # The excess flow is compared with 0 and updated incrementally: do it in exact arithmetic, otherwise float data leave a
+    # residue such as 1e-16 (a path with excess 0 is reported as safe, and the assertion below fails)
+    def value(u, v, attr):
+        return Fraction(G.edges[u, v][attr])
+
+    # An excess flow within the solver's tolerance does not make a path safe (for integer data this is the test "<= 0")
+    max_value = max([1] + [abs(data[upperbound_attr]) for _, _, data in G.edges(data=True) if upperbound_attr in data])
+    excess_tolerance = Fraction(1, 10**9) * Fraction(max_value)
+
     for path in decomp_paths:
         if len(path) <= 1:
             continue
@@ -115,15 +125,15 @@ def compute_inexact_flow_decomp_safe_paths(
                 assert inexact_excess == 0
 
                 R += 1
-                inexact_excess = G.edges[path[L], path[R]][lowerbound_attr]
+                inexact_excess = value(path[L], path[R], lowerbound_attr)
                 safe_path.append(path[R])
                 path_not_suffix_of_previous = True
 
             # Maximally extend the safe path to the right
             while R+1 < len(path):
-                rightdiff = G.edges[path[R], path[R+1]][upperbound_attr] - sum(G.edges[u, v][upperbound_attr] for u, v in G.out_edges(path[R]))
+                rightdiff = value(path[R], path[R+1], upperbound_attr) - sum(value(u, v, upperbound_attr) for u, v in G.out_edges(path[R]))
 
-                if inexact_excess + rightdiff <= 0:
+                if inexact_excess + rightdiff <= excess_tolerance:
                     break
 
                 inexact_excess += rightdiff
@@ -135,10 +145,10 @@ def compute_inexact_flow_decomp_safe_paths(
                 safe_paths_set.add(tuple(safe_path.copy())) if no_duplicates else safe_paths_list.append(safe_path.copy())
 
             # Remove the left most edge of the safe path
-            inexact_excess -= G.edges[path[L], path[L+1]][lowerbound_attr]
+            inexact_excess -= value(path[L], path[L+1], lowerbound_attr)
             if L+1 < R:
-                inexact_excess += sum(G.edges[u, v][upperbound_attr] for u, v in G.out_edges(path[L+1])) - G.edges[path[L+1], path[L+2]][upperbound_attr]
-                inexact_excess += G.edges[path[L+1], path[L+2]][lowerbound_attr]
+                inexact_excess += sum(value(u, v, upperbound_attr) for u, v in G.out_edges(path[L+1])) - value(path[L+1], path[L+2], upperbound_attr)
+                inexact_excess += value(path[L+1], path[L+2], lowerbound_attr)
             safe_path.popleft()
             L += 1
             path_not_suffix_of_previous = False
